@@ -33,6 +33,64 @@ def seqbytes_sym(length: int, off: int, rpl: int, leb: int, start: int, end: int
     return FIN(ok)
 
 
+def seqbytes_rpl(length, off, rpl, leb, start, end):
+    START()
+    info = mkinfo(length, off, rpl, leb)
+    idx = mkindex(info, 1000)
+    got = idx.sequence_bytes(info, start, end)
+    fh = idx.fasta_fileandle
+    ok = seqbytes_oracle(fh.reads, info, start, end)
+    segs = got.getvalue().segs
+    reads = [(p, n) for (p, n) in fh.reads if n > 0]
+    ok = ok and len(segs) == len(reads) and all(s.pos == p and s.n == n and not s.rev and not s.comp for s, (p, n) in zip(segs, reads))
+    return FIN(ok)
+
+
+def seqbytes_r1(length: int, off: int, leb: int, start: int, end: int) -> bool:
+    """
+    pre: 1 <= start <= end <= length and off >= 0 and 1 <= leb <= 2
+    pre: end - start + 1 <= 4
+    post: _
+    """
+    return seqbytes_rpl(length, off, 1, leb, start, end)
+
+
+def seqbytes_r2(length: int, off: int, leb: int, start: int, end: int) -> bool:
+    """
+    pre: 1 <= start <= end <= length and off >= 0 and 1 <= leb <= 2
+    pre: end - start + 1 <= 8
+    post: _
+    """
+    return seqbytes_rpl(length, off, 2, leb, start, end)
+
+
+def seqbytes_r3(length: int, off: int, leb: int, start: int, end: int) -> bool:
+    """
+    pre: 1 <= start <= end <= length and off >= 0 and 1 <= leb <= 2
+    pre: end - start + 1 <= 12
+    post: _
+    """
+    return seqbytes_rpl(length, off, 3, leb, start, end)
+
+
+def seqbytes_r7(length: int, off: int, leb: int, start: int, end: int) -> bool:
+    """
+    pre: 1 <= start <= end <= length and off >= 0 and 1 <= leb <= 2
+    pre: end - start + 1 <= 28
+    post: _
+    """
+    return seqbytes_rpl(length, off, 7, leb, start, end)
+
+
+def seqbytes_r60(length: int, off: int, leb: int, start: int, end: int) -> bool:
+    """
+    pre: 1 <= start <= end <= length and off >= 0 and 1 <= leb <= 2
+    pre: end - start + 1 <= 240
+    post: _
+    """
+    return seqbytes_rpl(length, off, 60, leb, start, end)
+
+
 def mkrows(spec, nums):
     """spec like 'F+ G F-': nums per row: (start, end) or (gaplen,)"""
     rows = []
@@ -180,9 +238,14 @@ def c14_conditions(tier):
 
 
 def conditions(tier):
-    out = [Cond("sequence_bytes_all_symbolic", HEAD, "seqbytes_sym", 600,
-                "random access: record length, file offset, line width rpl >= 1, terminator width 1|2, interval all symbolic; interval <= 3 input lines long",
-                replay="replay_seqbytes", encodes=ENC_SB)]
+    out = [Cond("sequence_bytes_all_symbolic", HEAD, "seqbytes_sym", 900,
+                "random access: record length, file offset, line width rpl >= 1, terminator width 1|2, interval all symbolic; interval <= 3 input lines long "
+                "(symbolic divisor: usually decided in 15 s, occasionally slow, hence thorough tier)",
+                tier="thorough", replay="replay_seqbytes", encodes=ENC_SB)]
+    for r in (1, 2, 3, 7, 60):
+        out.append(Cond(f"sequence_bytes_line_width_{r}", HEAD, f"seqbytes_r{r}", 300,
+                        f"random access with line width {r}: record length, file offset, terminator width 1|2 and the interval symbolic; interval <= 4 input lines long",
+                        replay="replay_seqbytes", encodes=ENC_SB))
     out += _mk_stream_conds(STREAMS, "stream")
     try:
         from vlib.props import c03b
@@ -238,7 +301,8 @@ def replay_seqbytes(cond, args, kwargs):
     _plain_tola()
     from tola.fasta.index import FastaIndex
     with tempfile.TemporaryDirectory() as tmp:
-        path, seq = _make_fasta(tmp, a["length"], a["rpl"], a["leb"])
+        rpl = a["rpl"] if "rpl" in a else int(re.search(r"seqbytes_r(\d+)", cond.fn).group(1))
+        path, seq = _make_fasta(tmp, a["length"], rpl, a["leb"])
         fi = FastaIndex(Path(path))
         fi.run_indexing()
         info = fi.get_info("c")
